@@ -17,11 +17,11 @@ META = dict(
     level="exploration",
     design_ref="DESIGN.md §5 C37",
     technique="online lock-step reference-model monitor: every operation of a generated history is applied to a real EKO on disk and to a dict model; after every step membership, iteration and approx lookups are compared, values on every read, full content after every close/re-open",
-    level_text="Bounded-exhaustive: ALL histories of length 3 (quick) / 4 (thorough) over 14 symbols (set, set-with-error, get, unload on 3 keys; items(); close+re-open) - prefixes included - plus long random histories (to length 30) over a wider alphabet (NumPy-typed and 1-ulp keys, unload(), del eko.operators, operator() context manager, Inventory access, read-only re-opens, sessions abandoned without close). Exhaustive only within those bounds; beyond them exploration.",
+    level_text="Bounded-exhaustive: ALL histories of length 3 (quick) / 4 (thorough) over 15 symbols (set, set-with-error, get, unload on 3 keys; items(); close+re-open; close + reads through the closed handle + rewrite by a second handle + reads through the stale handle + re-open) - prefixes included - plus long random histories (to length 30) over a wider alphabet (NumPy-typed and 1-ulp keys, unload(), del eko.operators, operator() context manager, Inventory access, read-only re-opens, sessions abandoned without close). Exhaustive only within those bounds; beyond them exploration.",
     level_note="Trusted base: vlib/oracles/storemodel.py (dict + persisted copy; design decisions: unload never changes the map, a failed lookup never changes the map, approx is |q-k| <= atol + rtol|k| with unique/none/ambiguous). Arrays compared by sha256 of bytes.",
     rule="case = one history (sequence of operations); distinct by its symbol sequence / random seed index; non-trivial = the history stores at least one operator and performs at least one of: unload, overwrite, re-open, read after unload",
     min_nontrivial=300,
-    required_hits=["steps", "contains_checks", "iter_checks", "approx_checks", "approx_ambiguous", "value_reads", "reopen_content", "final_content", "del_absent", "overwrite_other_format"],
+    required_hits=["steps", "contains_checks", "iter_checks", "approx_checks", "approx_ambiguous", "value_reads", "reopen_content", "final_content", "del_absent", "overwrite_other_format", "closed_handle_reads", "approx_loose_tolerance"],
     max_inconclusive_frac=0.02,
 )
 
@@ -190,6 +190,8 @@ class Session:
                 raise Diverged("C37/items/content", f"items() yields keys {sorted(seen)} / values differing from the model {sorted(m.work)}")
             self.flags.add("unload")
             return "items"
+        if kind == "closed_reads":
+            return self.closed_reads()
         if kind == "unload_all":
             try:
                 e.unload()
@@ -229,6 +231,113 @@ class Session:
             return label
         raise AssertionError(op)
 
+    # ------------------------------------------------ reads through a closed handle
+    def _probe_closed(self, old, snapshot, tag):
+        """Reads through the closed handle `old`; `snapshot` = content when it was closed.
+
+        Operator content (get / Inventory get / operator() / items()) must raise ClosedOperator whatever the
+        cache holds.  Membership, iteration and approx only look at the in-memory key list (access.py: "mild"
+        protection): they may raise ClosedOperator or answer consistently with the content at close.
+        """
+        from eko.io import access
+        from eko.io.items import Target
+
+        current = self.model.persisted or {}
+        ref = sm.StoreModel()
+        ref.work = dict(snapshot)
+        for k in self.pool:
+            for how in ("getitem", "inventory", "context"):
+                self.hit("closed_handle_reads")
+                try:
+                    if how == "getitem":
+                        got = old[k]
+                    elif how == "inventory":
+                        got = old.operators[Target.from_ep(k)]
+                    else:
+                        with old.operator(k) as got_:
+                            got = got_
+                except access.ClosedOperator:
+                    continue
+                except Exception as ex:
+                    raise Diverged(f"C37/{tag}/get/wrong-exception", f"reading {k} ({how}) through a closed EKO raised {type(ex).__name__}: {str(ex)[:200]} instead of ClosedOperator")
+                stale = got is not None and sm.key(k) in current and sm.vdigest(got.operator, got.error) != current[sm.key(k)]
+                raise Diverged(f"C37/{tag}/get/returned", f"reading {k} ({how}) through a closed EKO returned {'STALE content (the archive now holds another value)' if stale else 'content'} instead of raising ClosedOperator")
+        for k in self.pool:
+            try:
+                got = k in old
+            except access.ClosedOperator:
+                continue
+            except Exception as ex:
+                raise Diverged(f"C37/{tag}/contains/wrong-exception", f"({k} in closed eko) raised {type(ex).__name__}: {ex}")
+            if got != (sm.key(k) in snapshot):
+                raise Diverged(f"C37/{tag}/contains/inconsistent", f"({k} in closed eko) is {got}; content at close: {sorted(snapshot)}")
+        try:
+            it = [sm.key(ep) for ep in old]
+            if len(set(it)) != len(it) or set(it) != set(snapshot):
+                raise Diverged(f"C37/{tag}/iter/inconsistent", f"iterating the closed eko yields {sorted(it)}; content at close: {sorted(snapshot)}")
+        except access.ClosedOperator:
+            pass
+        for q, kw in (((10.0000025, 4), {}), ((10.5, 5), dict(atol=1.0))):
+            try:
+                want, amb = ref.approx(q, **kw), False
+            except sm.Ambiguous:
+                want, amb = None, True
+            try:
+                got = old.approx(q, **kw)
+            except access.ClosedOperator:
+                continue
+            except ValueError:
+                if not amb:
+                    raise Diverged(f"C37/{tag}/approx/inconsistent", f"approx({q},{kw}) on the closed eko raised although its content at close {sorted(snapshot)} has {want}")
+                continue
+            if amb or (got is None) != (want is None) or (got is not None and sm.key(got) != want):
+                raise Diverged(f"C37/{tag}/approx/inconsistent", f"approx({q},{kw}) on the closed eko = {got}; content at close {sorted(snapshot)} gives {'ambiguous' if amb else want}")
+        # items() last: it unloads what it manages to read
+        try:
+            n_yielded = sum(1 for _ in old.items())
+        except access.ClosedOperator:
+            pass
+        except Exception as ex:
+            raise Diverged(f"C37/{tag}/items/wrong-exception", f"items() on a closed EKO raised {type(ex).__name__}: {str(ex)[:200]}")
+        else:
+            if snapshot:
+                raise Diverged(f"C37/{tag}/items/returned", f"items() on a closed EKO holding {sorted(snapshot)} yielded {n_yielded} operators instead of raising ClosedOperator")
+
+    def closed_reads(self):
+        """Close the handle, read through it; then let another handle rewrite the archive and read again."""
+        m = self.model
+        old = self.eko
+        try:
+            old.close()
+            m.close()
+        except Exception as ex:
+            raise Diverged("C37/closed-handle/close-raises", f"close raised {type(ex).__name__}: {str(ex)[:200]}")
+        snapshot = dict(m.persisted or {})
+        self._probe_closed(old, snapshot, "closed-handle")
+        # stale handle: B edits and overwrites, A (closed, cache possibly still loaded) is read again
+        try:
+            b = self.EKO.edit(self.path)
+            m.reopen(False)
+            if m.work:
+                k = sorted(m.work)[int(self.rng.integers(len(m.work)))]
+                o = self._new_op(bool(self.rng.integers(2)))
+                b[k] = o
+                m.set(k, o.operator, o.error)
+                self.flags.add("overwrite")
+            b.close()
+            m.close()
+        except Exception as ex:
+            raise Diverged("C37/stale-handle/second-handle-raises", f"editing through a second handle raised {type(ex).__name__}: {str(ex)[:300]}")
+        self._probe_closed(old, snapshot, "stale-handle")
+        try:
+            self.eko = self.EKO.edit(self.path)
+            m.reopen(False)
+        except Exception as ex:
+            raise Diverged("C37/reopen-edit/raises", f"re-open after closed-handle reads raised {type(ex).__name__}: {str(ex)[:300]}")
+        self.flags.add("reopen")
+        self.hit("reopen_content")
+        return "reopen-edit"
+
     # ------------------------------------------------ non-mutating observations
     def observe(self, label):
         e, m = self.eko, self.model
@@ -252,9 +361,20 @@ class Session:
             ((10.000005, 4), dict(rtol=0.0, atol=1e-10)),
             ((14.5, 4), dict(rtol=0.4, atol=0.0)),  # |q-k| = 4.5 > 0.4*|k| but < 0.4*|q|
             ((10.0, 4), dict(rtol=1e-8)),
+            # loose user tolerances (as ekobox forwards them): the tolerance applies to the SCALE only,
+            # nf has to match exactly - the store holds neighbouring nf at equal/nearby scales
+            ((10.5, 5), dict(rtol=0.0, atol=1.0)),
+            ((10.0, 3), dict(atol=1.0)),
+            ((10.0, 6), dict(atol=2.5)),
+            ((10.0, 5), dict(rtol=0.3, atol=0.0)),
+            ((12.0, 4), dict(atol=3.0)),
+            ((31.0, 5), dict(rtol=0.2, atol=1.5)),
+            ((9.0, 4), dict(rtol=0.25)),
         ]
         for q, kw in probes:
             self.hit("approx_checks")
+            if kw.get("atol", 0.0) >= 1.0 or kw.get("rtol", 0.0) >= 0.2:
+                self.hit("approx_loose_tolerance")
             try:
                 want = m.approx(q, **kw)
                 amb = False
@@ -344,7 +464,7 @@ def symbols():
     syms = []
     for k in KEYS3:
         syms += [("set", k), ("sete", k), ("get", k), ("del", k)]
-    syms += [("items",), ("cycle", "edit")]
+    syms += [("items",), ("cycle", "edit"), ("closed_reads",)]
     return syms
 
 
@@ -368,7 +488,9 @@ def random_history(rng):
             hist.append(("del", k))
         elif r < 0.76:
             hist.append(("items",))
-        elif r < 0.80:
+        elif r < 0.79:
+            hist.append(("closed_reads",))
+        elif r < 0.81:
             hist.append(("unload_all",))
         elif r < 0.84:
             hist.append(("empty",))
